@@ -87,6 +87,8 @@ void     disk_restore(const Disk &d); // replace the current disk (all streams m
 void     disk_apply(Disk &d, const WriteRec &w);
 uint64_t disk_hash(const Disk &d);
 std::vector<uint8_t> file_bytes(const Disk &d, const std::string &path, int64_t maxlen = (int64_t)1 << 28);
+std::string          wlog_serialize(const std::vector<WriteRec> &w);
+std::vector<WriteRec> wlog_deserialize(const std::string &s);
 std::string          disk_serialize(const Disk &d);
 Disk                 disk_deserialize(const std::string &s);
 
@@ -113,5 +115,6 @@ void     set_nofile_limit(long n);
 Disk    &disk();
 const uint64_t *kind_counts();  // events per kind
 const uint64_t *fault_counts(); // faults fired per kind
+const std::string &fault_site(); // library call chain (innermost first) where the first fault fired
 
 } // namespace simfs
